@@ -24,6 +24,18 @@ CLAIMED = {
         design="6/C13",
         note=TB + " Bytes >= 128 (signed char) are outside the model: dnaio rejects non-ASCII input.",
     ),
+    "C14": dict(
+        text="Theorems (coq/Properties/C14.v): the poly-A/poly-T scan returns the least position maximising +1/-2 score among prefixes with at most 20% other bases "
+        "(unique; tails < 3 ignored); --trim-n removes an all-N prefix and suffix and leaves a read that neither starts nor ends with N (idempotent, all-N -> empty); "
+        "N count counts N and n; the 4x-unrolled four-accumulator expected-error loop equals the plain sum of table values in exact arithmetic for every length and table, "
+        "rejects exactly bytes outside base..126; each of the 94 table entries regenerated from expected_errors.h is within relative 1e-14 of 10^(-k/10) (interval arithmetic). "
+        "Tie: extracted model vs poly_a_trim_index/PolyATrimmer/NEndTrimmer/TooManyN; PrimFloat twin evaluated by vm_compute vs expected_errors bit-exactly; brute-force oracles for search. "
+        "Partial in one respect: the rounding error of the double summation is not bounded by a theorem.",
+        technique="Coq proof (induction; interval tactic for the table) + translator for the table + extracted-model / vm_compute differential correspondence",
+        design="6/C14",
+        note=TB + " C14_ee_table additionally rests on the standard library's real-number axioms (sig_forall_dec, sig_not_dec, functional_extensionality_dep, classic) "
+        "and on the Interval/Flocq/Coquelicot libraries; PrimFloat is used for the executable float twin only.",
+    ),
 }
 
 NOT_YET = {}
